@@ -81,6 +81,8 @@ def _impl_one(op):
     if kind == "DECSRC":
         _, mode, tname, cc, enc, data, src = op
         return canon.impl_dec(mode, tname, cc, enc, data, source=src)
+    if kind == "OBJS":
+        return canon.impl_stream_objs(op[1])
     if kind == "INT":
         return canon.impl_int(op[1], op[2])
     if kind == "BITS":
